@@ -212,12 +212,11 @@ func run(c *core.Ctx) {
 		if len(h) == D-1 {
 			hist := append(append([]int{}, h...), opProcess)
 			caseNo, ok := c.Begin()
-			c.Exec()
-			c.StateN(1)
-			if !ok {
-				c.Fail(caseNo, nil, c.Fatal(caseNo), describe(hist), "every call returns", "worker died")
+			if c.Skip(caseNo, ok, describe(hist)) {
 				return
 			}
+			c.Exec()
+			c.StateN(1)
 			f, procs, steps := runHistory(hist)
 			c.Edge(int64(steps))
 			c.Validates(int64(procs))
